@@ -156,7 +156,7 @@ static int runOne(Scenario& sc, bool always) {
 int main(int argc, char** argv) {
     std::string prop = "C03", tier = "quick", replay;
     uint64_t base = 1, seed = 0;
-    long stripe = 0, of = 1, count = 1;
+    long stripe = 0, of = 1, count = 1, from = 0;
     int sub = -1;
     bool emit = false, haveSeed = false, listWorlds = false;
     for (int i = 1; i < argc; ++i) {
@@ -168,6 +168,7 @@ int main(int argc, char** argv) {
         else if (a == "--stripe") stripe = std::atol(next().c_str());
         else if (a == "--of") of = std::atol(next().c_str());
         else if (a == "--count") count = std::atol(next().c_str());
+        else if (a == "--from") from = std::atol(next().c_str());
         else if (a == "--replay") replay = next();
         else if (a == "--emit") emit = true;
         else if (a == "--seed") { seed = std::strtoull(next().c_str(), nullptr, 10); haveSeed = true; }
@@ -210,10 +211,10 @@ int main(int argc, char** argv) {
         return rc;
     }
     const int K = schedulesPer(prop, tier);
-    for (long n = 0; n < count; ++n) {
+    for (long n = from; n < count; ++n) {
         if (n % of != stripe) continue;
         const uint64_t s = deriveSeed(base, uint64_t(n));
-        std::printf("START %llu\n", (unsigned long long)s);
+        std::printf("START %llu %ld\n", (unsigned long long)s, n);
         std::fflush(stdout);
         Scenario sc = generate(prop, s, tier, plain);
         for (int k = 0; k < K; ++k) {
